@@ -6,6 +6,7 @@
 (*          scale, and (method, n, order) through the default scale / default ratio)           *)
 (*  deriv : the generator a Derivative object builds for step=None / scalar step               *)
 EXTENDS StepGen, Json
+RL == INSTANCE Rules
 CONSTANTS NMax, OMax, ValN, ValO, EmitOn
 VARIABLES fam, opts, m, n, o
 vars == <<fam, opts, m, n, o>>
@@ -32,11 +33,16 @@ CDefaultInit ==     \* CStepGenerator default count 2*round(16/ln r)+1
   /\ \E r \in {R(2), R(3), R(4), R(8), R(16), Q(3, 2), R(10)} :
         opts = Mk("C", NoneQ, r, NoneN, NoneQ, Zero, 0, TRUE, TRUE, Q(6, 5))
 
+SpiralInit ==      \* CStepGenerator(path='spiral', dtheta = pi*t1/t2) ; theta carried in opts.nom slot is not possible: own fields
+  /\ fam = "spiral" /\ m = "forward" /\ n = 1 /\ o = 2
+  /\ \E r \in {R(2), R(4), Q(3, 2)}, ns \in {NoneN, 5}, off \in {Zero, R(1)}, b \in {NoneQ, Q(1, 4)} :
+        opts = Mk("C", b, r, ns, NoneQ, off, 0, TRUE, TRUE, Q(6, 5))
+
 DerivInit ==
   /\ fam = "deriv" /\ m \in Methods /\ n \in 1..NMax /\ o \in 1..OMax
   /\ \E st \in {NoneQ, Q(1, 8)} : opts = DerivOpts(m, st)
 
-Init == CountInit \/ ValueInit \/ CDefaultInit \/ DerivInit
+Init == CountInit \/ ValueInit \/ CDefaultInit \/ SpiralInit \/ DerivInit
 Next == UNCHANGED vars
 
 \* documented: decreasing magnitude
@@ -44,6 +50,11 @@ InvDecreasing == Decreasing(Exponents(opts, m, n, o))
 InvCountPositive == Count(opts, m, n, o) >= 1
 \* defaults never give fewer steps than the minimum the method needs
 InvDefaultEnough == (opts.cls # "C" /\ (opts.numsteps = NoneN \/ opts.check)) => Count(opts, m, n, o) >= MinNumSteps(m, n, o)
+\* no valid Derivative configuration fails for lack of steps: the generator a Derivative object
+\* builds by default (or from a scalar step) yields more steps than the rule has weights minus one
+InvRuleFits ==
+  (fam = "deriv" /\ m \in RL!RuleMethods) =>
+      LET mo == RL!MethodOrder(m, n, o) IN Count(opts, m, n, mo) > RL!NumTerms(m, n, o) - 1
 InvScalePositive == RSign(DefaultScale(m, n, o)) > 0
 
 Rec == [fam |-> fam, opts |-> opts, m |-> m, n |-> n, o |-> o,
@@ -51,6 +62,7 @@ Rec == [fam |-> fam, opts |-> opts, m |-> m, n |-> n, o |-> o,
         exps |-> Exponents(opts, m, n, o),
         base |-> BaseTerm(opts, m, n, o), nom |-> NomTerm(opts),
         ratio |-> Ratio(opts, n), exact |-> opts.exact,
-        minsteps |-> MinNumSteps(m, n, o)]
+        minsteps |-> MinNumSteps(m, n, o),
+        angles |-> IF fam = "spiral" THEN [j \in 1..Len(Exponents(opts, m, n, o)) |-> SpiralAngle(<<1, 8>>, Exponents(opts, m, n, o)[j])] ELSE << >>]
 Emit == EmitOn => PrintT(<<"@@", ToJson(Rec)>>)
 =============================================================================
